@@ -4,6 +4,7 @@
 //! Sub-commands (each prints ndjson on stdout; exit 0 unless the tool itself failed):
 //!   replay <module> <behaviours.ndjson> [opts]   spec -> code
 //!   record <module> <out.ndjson> [opts]          code -> spec (trace for TLC)
+mod cfgcenter;
 mod codec;
 mod logfile;
 mod meta;
@@ -28,6 +29,7 @@ fn main() {
         ("record", "logfile") => logfile::record(&args[3..]),
         ("replay", "sm") => smreplay::replay(&args[3..]),
         ("record", "sm") => smreplay::record(&args[3..]),
+        ("replay", "cfgcenter") => cfgcenter::replay(&args[3..]),
         ("replay", "meta") => meta::replay(&args[3..]),
         ("node", "run") => node::main_node(&args[3..]),
         _ => Err(anyhow::anyhow!("unknown command {} {}", args[1], args[2])),
